@@ -19,11 +19,11 @@ from .kernel import H, Sim, Violation
 from .scenarios import BaseScenario
 from .world import World, MUTATING
 
-PREFIX_KINDS = {"mk_group": 5, "mk_object": 10, "add_data": 12, "add_comment": 2, "add_file": 1, "set_meta": 3, "pg_add": 4, "pg_new": 1, "copy": 3, "move": 2}
+PREFIX_KINDS = {"mk_group": 6, "mk_object": 12, "add_data": 12, "add_comment": 2, "add_file": 1, "set_meta": 3, "pg_add": 4, "pg_new": 1, "copy": 3, "move": 2}
 RO_KINDS = {"mk_group": 4, "mk_object": 5, "add_data": 6, "add_comment": 3, "add_file": 2, "set_values": 5, "rename": 5, "set_flag": 4, "set_meta": 4,
             "move": 3, "move_data": 2, "copy": 5, "rm_ws": 5, "rm_parent": 4, "pg_add": 4, "pg_rm": 2, "pg_del": 2, "pg_new": 2, "type_edit": 3, "mk_dup": 1,
             "observe": 6, "lookup": 4, "list": 4, "gc": 2,
-            "h_fetch_active": 3, "h_monitored_copy": 3, "h_uijson": 3, "copy_out": 4, "copy_in": 3, "reopen_r": 3, "coop_write": 0}
+            "hole_attr": 4, "h_fetch_active": 3, "h_fetch_rplus": 2, "h_monitored_copy": 3, "h_uijson": 3, "copy_out": 4, "copy_in": 3, "reopen_r": 3, "coop_write": 0}
 
 
 class ReadOnlyScenario(BaseScenario):
@@ -77,8 +77,20 @@ class ReadOnlyScenario(BaseScenario):
                 world.weights = lambda: dict(PREFIX_KINDS)
                 world.open_initial()
                 n_prefix = len(prefix) if prefix is not None else cfg["n_prefix"]
+                seeded = []
+                if prefix is None and cfg.get("version", 2.1) >= 2.0 and rng.random() < 0.4:
+                    # make sure concatenated drillholes are present in a good share of the files
+                    from . import build
+
+                    r2 = random.Random(H(seed, "concat-seed"))
+                    seeded = [
+                        {"id": 0, "k": "mk_group", "sub": r2.getrandbits(64), "h": "A", "keep": False, "cls": "DrillholeGroup", "name": "dh group",
+                         "t": {"by": None, "n": 0, "fb": 0, "want": "container"}},
+                        {"id": 1, "k": "mk_object", "sub": r2.getrandbits(64), "h": "A", "keep": False, "cls": "Drillhole",
+                         "t": {"by": 0, "n": 0, "fb": 0, "want": "groupish"}, "args": build.gen_object_args(r2, "Drillhole")},
+                    ]
                 for i in range(n_prefix):
-                    op = prefix[i] if prefix is not None else world.gen_op(rng, i)
+                    op = prefix[i] if prefix is not None else (seeded[i] if i < len(seeded) else world.gen_op(rng, i))
                     executed_prefix.append(op)
                     world.apply(op)
                     if world.suspect:
@@ -250,6 +262,7 @@ class ReadOnlyScenario(BaseScenario):
         tw.h["A"] = handle
         tw.created = {k: list(v) for k, v in world.created.items()}
         before = rawgeoh5.digests(rawgeoh5.read(handle.ws.geoh5))
+        handle.ws.repack = False
         tw.call_expect_either = True
         sim.begin_op(op["sub"])
         try:
@@ -260,9 +273,9 @@ class ReadOnlyScenario(BaseScenario):
         finally:
             sim.end_op()
         sim.drain_warnings()
-        after = rawgeoh5.digests(rawgeoh5.read(handle.ws.geoh5))
         tw.slots.clear()
-        handle.ws.close()
+        handle.ws.close()     # deferred writes (concatenated attribute records) land at close
+        after = rawgeoh5.digests(rawgeoh5.read(twin_path))
         twin_path.unlink()
         return before != after, outcome
 
@@ -286,6 +299,15 @@ class ReadOnlyScenario(BaseScenario):
             return "reopened"
         if kind == "coop_write":
             return "skipped"
+        if kind == "h_fetch_rplus":
+            # a helper re-opens the read-only workspace writable for its own block; afterwards a plain open()
+            # must give back the mode the workspace was created with
+            world.drop_all()
+            with fetch_active_workspace(ro, mode="r+"):
+                pass
+            ro.open()
+            sim.probe("helper_fetch_rplus")
+            return "reopened"
         if kind == "h_fetch_active":
             with fetch_active_workspace(ro, mode="r") as got:
                 if got.geoh5.mode != "r":
